@@ -23,6 +23,7 @@ func init() {
 			ruleBudgetFresh(c, r, "")
 			ruleLookahead(c, r, "")
 			ruleFlushFailStop(c, r, "")
+			ruleLoopAdvanceExact(c, r, "")
 			ruleMatcherGuard(c, r, "", false)
 			ruleCtorReopen(c, r, "")
 			cone := c.Cone(nonNilFns(c.Func("lzma", "Writer2.Write"), c.Func("lzma", "Writer2.Flush"), c.Func("lzma", "Writer2.Close"),
